@@ -5,6 +5,7 @@ CONSTANTS
   MaxFrames = 3
   MaxCancels = 3
   Fixes = {}
+  CfgSet <- ConfigsX
 SPECIFICATION Spec
 INVARIANTS TypeOK Routed TerminalLocal NothingAfterTerminal SharedOnlyIfSameKey NoLeak NoStall
 CHECK_DEADLOCK FALSE
